@@ -1,4 +1,4 @@
-//@unit tier=quick isolation=yes
+//@unit tier=quick
 //@include prelude/uses.rs
 use vstd::std_specs::iter::IteratorSpec;
 verus! {
@@ -108,13 +108,13 @@ impl<T: RealNumber> KMeans<T> {
                 // no clustering yet: the iteration range 1..=max_iter is not exhausted
                 VERUS_ghost_iter.iter.obeys_prophetic_iter_laws(),
                 !done ==> VERUS_ghost_iter.iter.remaining().len() > 0, //# inv-iteration-range-not-exhausted-before-the-first-clustering
+                // ... so the loop is not left through the iteration limit before a clustering call
+                VERUS_ghost_iter.iter.remaining().len() == 0 ==> done, //# at-least-one-clustering-call-was-made
                 // after every (complete or interrupted) iteration: (y, size, sums) are the statistics of the clustering
                 // call of THIS iteration and the centroids with members have been recomputed from them
                 done ==> centroids_are_means(rows, y@, deep(sums@), size@, deep(centroids@), parameters.k as int, d as int), //# inv-centroids-belong-to-the-last-clustering
-            ensures
-                done, //# at-least-one-clustering-call-was-made
-                // on BOTH exits (iteration limit, distortion test): what is returned right after the loop
-                centroids_are_means(rows, y@, deep(sums@), size@, deep(centroids@), parameters.k as int, d as int), //# returned-centroids-belong-to-the-returned-assignment
+            // The loops are not isolated (a loop `ensures` would be ignored): what is returned right after the loop is known per exit.
+            // Iteration limit: the two invariants above.  Distortion test (`break`): the exit clause of loop 7 below.
 //@loopbody 6
             proof { done = true; }
 //@loop 7
@@ -128,6 +128,9 @@ impl<T: RealNumber> KMeans<T> {
                     forall|c: int| 0 <= c < parameters.k ==> (#[trigger] centroids@[c])@.len() == d,
                     forall|c: int, j: int| 0 <= c < i && 0 <= j < d && size@[c] > 0
                         ==> #[trigger] centroids@[c]@[j] == sums@[c]@[j].div_spec(T::from_spec::<usize>(size@[c])), //# inv-recomputed-centroids-are-sum-over-size
+                    // once every cluster is recomputed (the state in which the distortion test may `break`): the centroids belong to
+                    // the assignment of this iteration's clustering call
+                    i == parameters.k ==> centroids_are_means(rows, y@, deep(sums@), size@, deep(centroids@), parameters.k as int, d as int), //# returned-centroids-belong-to-the-returned-assignment
 //@loop 8
                         invariant
                             T::obeys_div_spec(), forall|a: T, b: T| #[trigger] a.div_req(b),
